@@ -91,11 +91,11 @@ def build(target, sanitize=False, jobs=16):
             for s in app_sources(with_main=True):
                 units.append((s, flags + ["-I" + os.path.join(REPO, "app/cmdline/src")], hdr_repo))
         else:
-            if target in ("h_pure", "h_app"):
+            if target in ("h_pure",):
                 for s in app_sources():
                     units.append((s, flags + ["-I" + os.path.join(REPO, "app/cmdline/src")], hdr_repo))
             hsrc = [os.path.join(ROOT, "harness", target + ".cpp")]
-            extra = {"h_client": ["interpose.cpp"], "h_e2e": ["interpose.cpp"], "h_ctl": ["interpose.cpp"]}.get(target, [])
+            extra = {"h_client": ["interpose.cpp"], "h_e2e": ["interpose.cpp"], "h_ctl": ["interpose.cpp"], "h_app": ["interpose.cpp"]}.get(target, [])
             for e in extra:
                 hsrc.append(os.path.join(ROOT, "harness", e))
             for s in hsrc:
